@@ -171,7 +171,12 @@ Definition enc_got (p : option pdu) : list Z :=
   | None => []
   | Some p => let e := enc_pdu p in
               (* packed length; whether it parses back (spacepackets cannot parse File Data without data) *)
-              zlen e :: e ++ [pdu_len p; match p with PFileData h _ [] => b2z (h_crc h) | _ => 1 end]
+              zlen e :: e ++ [pdu_len p;
+                          match p with
+                          | PFileData h _ [] => b2z (h_crc h)
+                          (* spacepackets counts a fault location in the length field but does not pack it for NO_ERROR *)
+                          | PFinished _ c _ _ (Some _) => b2z (negb ((c =? C_NO_ERROR) || (c =? C_UNSUPPORTED_CHECKSUM)))
+                          | _ => 1 end]
   end.
 
 Definition enc_file (t : tree) (p : path) : list Z :=
